@@ -28,7 +28,8 @@ def gen(rnd):
     if rnd.random() < 0.25:
         vel = [vel[0]] * nlay
     X = rnd.choice([0.5, 1.0, 2.0, 3.5, 6.0, 10.0])
-    angle = rnd.choice([rnd.uniform(0.5, 89.5), rnd.uniform(1, 30), rnd.uniform(60, 89.9), 45.0, 30.0])
+    angle = rnd.choice([rnd.uniform(0.5, 89.5), rnd.uniform(1, 30), rnd.uniform(60, 89.9), 45.0, 30.0,
+                        rnd.choice([89.93, 89.97, 89.99, 0.01, 0.05])])          # grazing and almost vertical take-offs are in (0, 90) too
     if rnd.random() < 0.15:
         # a finely layered velocity gradient: many thin layers whose velocities differ by a few parts per million
         nlay = rnd.randint(8, 40)
